@@ -211,6 +211,10 @@ fn membership(
     let mut n_pos = 0u64;
     let mut n_neg = 0u64;
     for x in probes {
+        // the probe pins the clock inside minute x-1: the simulated clock cannot be before 1970
+        if x < 1 {
+            continue;
+        }
         let delta = match rng.below(4) {
             0 => 0,
             1 => 59_999_999_999,
